@@ -1653,6 +1653,16 @@ def packSpecialData(
 
     if any(isinstance(d, (tuple, list, np.ndarray)) for d in data):
         data = replaceNonesWithNonsense(data, paramName, nones)
+        if len(nones) == 0:
+            # No entry is unset as a whole, so the Nones are inside the arrays. For reals they
+            # became NaN and this is plain data now, with nothing for the reader to undo; other
+            # types have no such marker.
+            if data.dtype.kind != "f":
+                raise TypeError(
+                    "Cannot write {} to the database: unset values inside arrays can only be "
+                    "stored (as NaN) for real numbers.".format(paramName)
+                )
+            return data, {}
         return data, attrs
 
     if len(nones) == 0:
